@@ -958,7 +958,15 @@ fn resolve_text_macro_usage<T: AsRef<Path>, U: AsRef<Path>>(
         for arg in args.contents() {
             if let Some(arg) = arg {
                 let (ref arg,) = arg.nodes;
-                let arg = arg.str(&s).trim_end();
+                let full = arg.str(&s);
+                let mut arg = full.trim_end();
+                // A one-line comment at the end of the argument keeps the line end that terminates it.
+                let last_line = arg.rfind('\n').map_or(arg, |i| &arg[i + 1..]);
+                if last_line.contains("//") {
+                    if let Some(i) = full[arg.len()..].find('\n') {
+                        arg = &full[..arg.len() + i + 1];
+                    }
+                }
                 actual_args.push(Some(arg));
             } else {
                 actual_args.push(None);
